@@ -238,7 +238,7 @@ impl Prop for C15 {
         tier.pick(200_000, 10_000_000)
     }
     fn rule(&self) -> String {
-        "Seeded splines of order 2..6 on knot vectors as in C14; site layouts: Greville, perturbed Greville, the first k sites bunched at the start of the first knot interval, repeated end sites with natural (2,2) / clamped (1,1) / mixed end-derivative conditions (the classical cubic layout with data at the interior knots), least squares with extra sites; collocation matrices pre-screened by their 1-norm condition number (<= 1e5, computed by an own Gauss-Jordan inversion; ill-conditioned draws skipped and counted). Data: random, polynomial of degree < k, Dual / Dual2 with one variable per datum. After csolve: interior sites and end conditions reproduced (also through the independent piecewise-polynomial basis oracle on the returned coefficients), polynomial data reproduced in value and all derivatives at knots, end points, neighbouring floats, midpoints and random points; sensitivity to datum j == value of the float spline solved on the unit vector e_j; Dual / Dual2 abscissae give the spline's own first / second derivative as sensitivities (with non-zero own Hessian of the abscissa); mismatched site counts and evaluation before solving are errors; the 3x3 (spline type x abscissa type) table of mapped_value. distinct_nontrivial = distinct (k, layout, knot count) x case.".into()
+        "Seeded splines of order 2..6 on knot vectors as in C14; site layouts: Greville, perturbed Greville, the first k sites bunched at the start of the first knot interval, repeated end sites with natural (2,2) / clamped (1,1) / mixed end-derivative conditions (the classical cubic layout with data at the interior knots), least squares with extra sites; collocation matrices pre-screened by their 1-norm condition number (<= 1e5, computed by an own Gauss-Jordan inversion; ill-conditioned draws skipped and counted). Data: random, polynomial of degree < k, Dual / Dual2 with one variable per datum. After csolve: interior sites and end conditions reproduced (also through the independent piecewise-polynomial basis oracle on the returned coefficients), polynomial data reproduced in value and all derivatives at knots, end points, neighbouring floats, midpoints and random points; sensitivity to datum j == value of the float spline solved on the unit vector e_j; Dual / Dual2 abscissae give the spline's own first / second derivative as sensitivities (with non-zero own Hessian of the abscissa); mismatched site counts (fewer sites, fewer or more values than sites, an extra site without least squares - through the core solver and the Python-facing solver of all three spline types) and evaluation before solving are errors; the 3x3 (spline type x abscissa type) table of mapped_value. distinct_nontrivial = distinct (k, layout, knot count) x case.".into()
     }
     fn assumptions(&self) -> Vec<String> {
         vec!["tolerance 1e-9 relative to the summed magnitude |c_i| |B_i| of the terms".into(), "site sets violating Schoenberg-Whitney (singular collocation) are outside the property and are skipped".into()]
@@ -304,19 +304,40 @@ impl Prop for C15 {
                 (l.tau[..m - 1].to_vec(), y[..m - 1].to_vec(), l.lsq && m - 1 >= n, "one-site-fewer"),
                 (l.tau.clone(), y[..m - 1].to_vec(), false, "y-shorter-than-tau"),
                 ([l.tau.clone(), vec![l.tau[m - 1]]].concat(), [y.clone(), vec![0.5]].concat(), false, "one-site-more-without-lsq"),
+                (l.tau.clone(), [y.clone(), vec![0.5]].concat(), false, "y-longer-than-tau"),
+                (l.tau.clone(), [y.clone(), vec![0.5, -0.25, 2.0]].concat(), false, "y-longer-than-tau"),
             ];
             for (tau, yy, ok_expected, what) in bad {
                 let allow = if what == "one-site-more-without-lsq" { false } else { l.lsq };
                 if tau.len() < 2 {
                     continue;
                 }
-                let r = guarded(|| sp2.csolve(&tau, &yy, l.left_n, l.right_n, allow).is_ok());
-                ctx.eval(1);
-                ctx.asserted(1);
+                // the core solver, and the Python-facing one on a fresh object of each spline type
+                let r = guarded(|| {
+                    let core = sp2.csolve(&tau, &yy, l.left_n, l.right_n, allow).is_ok();
+                    let mut pf = rateslib::splines::PPSplineF64::verif_py_new(k, l.t.clone(), None);
+                    let pyf = pf.verif_py_csolve(tau.clone(), yy.clone(), l.left_n, l.right_n, allow).is_ok();
+                    let mut pd = rateslib::splines::PPSplineDual::verif_py_new(k, l.t.clone(), None);
+                    let pyd = pd.verif_py_csolve(tau.clone(), yy.iter().map(|v| Dual::new(*v, vec![])).collect(), l.left_n, l.right_n, allow).is_ok();
+                    let mut pd2 = rateslib::splines::PPSplineDual2::verif_py_new(k, l.t.clone(), None);
+                    let pyd2 = pd2.verif_py_csolve(tau.clone(), yy.iter().map(|v| Dual2::new(*v, vec![])).collect(), l.left_n, l.right_n, allow).is_ok();
+                    (core, pyf, pyd, pyd2)
+                });
+                ctx.eval(4);
+                ctx.asserted(4);
                 match r {
-                    Caught::Ok(okv) => {
+                    Caught::Ok((okv, pyf, pyd, pyd2)) => {
                         if okv && !ok_expected {
                             ctx.violation(&format!("C15|mismatched-counts-accepted|{}", what), case(json!({"tau_len": tau.len(), "y_len": yy.len(), "n": n, "allow_lsq": allow})));
+                            return;
+                        }
+                        if (pyf || pyd || pyd2) && !ok_expected {
+                            ctx.violation(&format!("C15|mismatched-counts-accepted|python-layer|{}", what), case(json!({"tau_len": tau.len(), "y_len": yy.len(), "n": n, "allow_lsq": allow, "accepted_by": {"PPSplineF64": pyf, "PPSplineDual": pyd, "PPSplineDual2": pyd2}})));
+                            return;
+                        }
+                        // (an admissible count may still be refused for other reasons; the Python-facing solvers must decide as the core does)
+                        if pyf != okv || pyd != okv || pyd2 != okv {
+                            ctx.violation(&format!("C15|python-layer-csolve-decides-differently|{}", what), case(json!({"tau_len": tau.len(), "y_len": yy.len(), "n": n, "allow_lsq": allow, "accepted_by": {"core": okv, "PPSplineF64": pyf, "PPSplineDual": pyd, "PPSplineDual2": pyd2}})));
                             return;
                         }
                         ctx.class("check:mismatched-counts-rejected");
